@@ -46,6 +46,19 @@ Theorem C17_overrides_kept : forall l rid req rid' req' o,
   (forall o', ovr_find l rid req = Some o' -> In (rid, req, o') l).
 Proof. exact (fun l rid req rid' req' o => conj (ovr_find_last l rid req o) (conj (ovr_find_other l rid req rid' req' o) (fun o' => ovr_find_in l rid req o'))). Qed.
 
+(* 64-bit sizes and indices (max_cred_num, rev_reg_index, reg_idx) reach a 32-bit unsigned parameter only when they fit:
+   accepted exactly for 0 .. 2^32-1, unchanged; anything else is refused, never wrapped. A timestamp argument of 0 or less
+   means "none": the updated list then keeps the timestamp it had. The conversion sites are pinned from the source. *)
+Theorem C17_index_try : forall i j, index_try i = Some j <-> (j = i /\ 0 <= i < 4294967296)%Z.
+Proof. exact index_try_spec. Qed.
+Theorem C17_index_never_wraps : forall i, (i < 0 \/ 4294967296 <= i)%Z -> index_try i = None.
+Proof. exact index_try_never_wraps. Qed.
+Theorem C17_timestamp_argument : forall old arg,
+  ((arg <= 0)%Z -> ts_after old arg = old) /\ ((0 < arg)%Z -> ts_after old arg = Some arg).
+Proof. exact (fun old arg => conj (ts_after_kept old arg) (ts_after_set old arg)). Qed.
+Theorem C17_scalar_rules_pinned : gen_ffi_u32_try_into_sites = 3%Z /\ gen_ffi_timestamp_none_sites = 2%Z.
+Proof. exact ffi_scalar_rules_pinned. Qed.
+
 Print Assumptions C17_table_checked.
 Print Assumptions C17_table_wrapped.
 Print Assumptions C17_malformed_rejected.
@@ -56,3 +69,7 @@ Print Assumptions C17_load_list_wrong_type.
 Print Assumptions C17_enc_values_aligned.
 Print Assumptions C17_index_cast.
 Print Assumptions C17_overrides_kept.
+Print Assumptions C17_index_try.
+Print Assumptions C17_index_never_wraps.
+Print Assumptions C17_timestamp_argument.
+Print Assumptions C17_scalar_rules_pinned.
